@@ -414,7 +414,10 @@ Inductive ev :=
 | AdjLeaf (c : positive) (e : ev)                 (* AdjustedSeatCount with an arbitrary calculator (answered by [leaf]) *)
 | AdjAllow (pe : ev) (e : ev)                     (* AdjustedSeatCount(AllowOverhang(pe), e) *)
 | AdjLevel (pe : ev) (e : ev) (fuel : nat)        (* AdjustedSeatCount(LevelOverhang(pe), e); fuel of the levelling loop (model only) *)
-| ByConsP (e : ev) (a : aspec) (pre : ev)         (* ByConstituency with a preselector (fixed / delegated apportionment) *).
+| ByConsP (e : ev) (a : aspec) (pre : ev)         (* ByConstituency with a preselector (fixed / delegated apportionment) *)
+| AdjLevelC (ce : ev) (oe : ev) (e : ev) (fuel : nat)
+                                                  (* AdjustedSeatCount(LevelOverhangByConstituency(ce, oe), e) *)
+| AdjLevelC0 (ce : ev) (e : ev) (fuel : nat)      (* ... overall_evaluator=None: PostConverted(ce, MergedDistributions()) *).
 
 Definition sig_of (t : ev) : sigt :=
   match t with
@@ -425,7 +428,7 @@ Definition sig_of (t : ev) : sigt :=
   | ByCons _ _ | ByConsD _ _ | PreApp _ _ | PreAppD _ _ | RemApp _ | ByParty _ _ | ByPartyS _ | ByConsP _ _ _ => sig_constit
   | Multi _ _ | Unused _ _ _ => sig_distr
   | PListC _ | PListO _ _ _ => sig_plist
-  | AdjLeaf _ _ | AdjAllow _ _ | AdjLevel _ _ _ => sig_adj
+  | AdjLeaf _ _ | AdjAllow _ _ | AdjLevel _ _ _ | AdjLevelC _ _ _ _ | AdjLevelC0 _ _ _ => sig_adj
   end.
 Definition attr_of (t : ev) : option bool := match t with Fixed _ _ => Some false | _ => None end.
 Definition acc_seats (t : ev) : bool := acc_seats_sig (attr_of t) (sig_of t).
@@ -440,7 +443,7 @@ Fixpoint takes (t : ev) (k : kw) : bool :=
   | Fixed e _ => negb (kw_eqb k KSeats) && takes e k
   | Cond _ e _ => kw_eqb k KSeats || kw_eqb k KPrev || takes e k
   | ByCons _ _ | ByConsD _ _ | PreApp _ _ | PreAppD _ _ | RemApp _ | ByParty _ _ | ByPartyS _ | Multi _ _
-  | Unused _ _ _ | AdjLeaf _ _ | AdjAllow _ _ | AdjLevel _ _ _ | ByConsP _ _ _ =>
+  | Unused _ _ _ | AdjLeaf _ _ | AdjAllow _ _ | AdjLevel _ _ _ | ByConsP _ _ _ | AdjLevelC _ _ _ _ | AdjLevelC0 _ _ _ =>
       kw_eqb k KSeats || kw_eqb k KPrev || kw_eqb k KMax
   | PListC p | PListO p _ _ => kw_eqb k KSeats || kw_eqb k KPl || kw_eqb k KLv || takes p k
   end.
@@ -629,6 +632,50 @@ Section Run.
     >>= fun drop =>
     sub_val n drop >>= fun adj0 =>
     level_loop fuel E mx lowest adj0 prop >>= fun adj =>
+    add_val adj drop >>= fun x => sub_val x n.
+
+  (* convert.MergedDistributions().convert *)
+  Definition merged_distr (v : val) : res val :=
+    match v with
+    | VDict _ => vote_totals v
+    | VList l => fold_left (fun acc x => acc >>= fun a => as_dict x >>= fun dv => add_dict a dv) l (Ok [])
+                 >>= fun r => Ok (VDict r)
+    | _ => raise E_TYPE
+    end.
+
+  (* LevelOverhangByConstituency.calculate (core.py L670-745, with the repairs 7a76c1b, d14cd5d):
+     [CE n mx] = constituency_evaluator.evaluate(votes, n, max_seats=mx); [PV] = the votes the overall evaluator gets
+     (VoteTotals of the votes, or the votes themselves); [OE pv h mx] = overall_evaluator.evaluate(pv, h, max_seats=mx) *)
+  Definition calc_level_byc (fuel : nat) (CE : val -> val -> res val) (PV : res val) (OE : val -> val -> val -> res val)
+             (n prev mx : val) : res val :=
+    CE n mx >>= fun cty_results =>
+    as_dict cty_results >>= fun crd =>
+    map_res (fun cr => as_dict (snd cr) >>= fun cps =>
+                       map_res (fun ps => as_dict prev >>= fun pd =>
+                                           as_dict (dget_or pd (fst cr) (VDict [])) >>= fun pcd =>
+                                           max_val (dget_or pcd (fst ps) (VInt 0)) (snd ps) >>= fun m => Ok (fst ps, m)) cps
+                       >>= fun r => Ok (fst cr, VDict r)) crd >>= fun minima =>
+    vote_totals (VDict minima) >>= as_dict >>= fun lowest0 =>
+    as_dict prev >>= fun pd =>
+    (* first round seats of a second round party in a constituency where it gets no proportional seat *)
+    fold_left (fun acc cg => acc >>= fun low0 =>
+                 let cps := dget_or crd (fst cg) (VDict []) in
+                 as_dict (snd cg) >>= fun gains =>
+                 fold_left (fun acc2 pg => acc2 >>= fun low =>
+                              if dmem low (fst pg)
+                              then as_dict cps >>= fun cpd =>
+                                   if dmem cpd (fst pg) then Ok low
+                                   else add_val (dget_or low (fst pg) (VInt 0)) (snd pg) >>= fun x => Ok (dset low (fst pg) x)
+                              else Ok low) gains (Ok low0)) pd (Ok lowest0) >>= fun lowest =>
+    fold_left (fun acc cg => acc >>= fun d0 =>
+                 as_dict (snd cg) >>= fun gains =>
+                 fold_left (fun acc2 pg => acc2 >>= fun dr =>
+                              if dmem lowest (fst pg) then Ok dr else add_val dr (snd pg)) gains (Ok d0)) pd (Ok (VInt 0))
+    >>= fun drop =>
+    sub_val n drop >>= fun adj0 =>
+    PV >>= fun pv =>
+    OE pv adj0 mx >>= fun prop =>
+    level_loop fuel (OE pv) mx lowest adj0 prop >>= fun adj =>
     add_val adj drop >>= fun x => sub_val x n.
 
   (* tie replacement loop of TieBreaking.evaluate; [brk sub n] runs the tiebreaker *)
@@ -876,6 +923,20 @@ Section Run.
                          then run_impl e sv (call_npm n (dget_or pd (fst kv) (VDict [])) (dget_or md (fst kv) (VDict [])))
                          else run_impl e sv (call_n n)) >>= fun r => Ok (fst kv, Some r)) dvs
         >>= finish_districts
+    | AdjLevelC ce oe e fuel =>
+        bind sig_adj pa >>= fun b =>
+        calc_level_byc fuel (fun n mx => run_impl ce votes (PA [n] (only KMax mx)))
+                       (vote_totals votes) (fun pv h mx => run_impl oe pv (PA [h] (only KMax mx)))
+                       (nget b KSeats) (nget b KPrev) (nget b KMax) >>= fun seat_adj =>
+        add_val (nget b KSeats) seat_adj >>= fun n' =>
+        run_impl e votes (call_npm n' (nget b KPrev) (nget b KMax))
+    | AdjLevelC0 ce e fuel =>
+        bind sig_adj pa >>= fun b =>
+        calc_level_byc fuel (fun n mx => run_impl ce votes (PA [n] (only KMax mx)))
+                       (Ok votes) (fun pv h mx => run_impl ce pv (PA [h] (only KMax mx)) >>= merged_distr)
+                       (nget b KSeats) (nget b KPrev) (nget b KMax) >>= fun seat_adj =>
+        add_val (nget b KSeats) seat_adj >>= fun n' =>
+        run_impl e votes (call_npm n' (nget b KPrev) (nget b KMax))
     end.
 
   (* ================================================================ run_spec : by hand *)
@@ -1095,6 +1156,20 @@ Section Run.
                            then sa_npm n (dget_or pd (fst kv) (VDict [])) (dget_or md (fst kv) (VDict []))
                            else only KSeats n) >>= fun r => Ok (fst kv, Some r)) dvs
         >>= finish_districts
+    | AdjLevelC ce oe e fuel =>
+        accept sig_adj sa >>= fun b =>
+        calc_level_byc fuel (fun n mx => run_spec ce votes (KW (Some n) None (Some mx) None None None))
+                       (totals_s votes) (fun pv h mx => run_spec oe pv (KW (Some h) None (Some mx) None None None))
+                       (sa_get b KSeats) (sa_get b KPrev) (sa_get b KMax) >>= fun seat_adj =>
+        add_val (sa_get b KSeats) seat_adj >>= fun n' =>
+        run_spec e votes (sa_npm n' (sa_get b KPrev) (sa_get b KMax))
+    | AdjLevelC0 ce e fuel =>
+        accept sig_adj sa >>= fun b =>
+        calc_level_byc fuel (fun n mx => run_spec ce votes (KW (Some n) None (Some mx) None None None))
+                       (Ok votes) (fun pv h mx => run_spec ce pv (KW (Some h) None (Some mx) None None None) >>= merged_distr)
+                       (sa_get b KSeats) (sa_get b KPrev) (sa_get b KMax) >>= fun seat_adj =>
+        add_val (sa_get b KSeats) seat_adj >>= fun n' =>
+        run_spec e votes (sa_npm n' (sa_get b KPrev) (sa_get b KMax))
     end.
 End Run.
 
@@ -1127,7 +1202,7 @@ Definition is_open_leaf (e : ev) : bool := match e with Leaf _ LOpen => true | _
 Fixpoint seat_any (t : ev) : bool :=
   match t with
   | Leaf _ _ | Fixed _ _ | ByCons _ _ | PreApp _ _ | RemApp _ | ByPartyS _
-  | Unused _ _ _ | AdjLeaf _ _ | AdjAllow _ _ | AdjLevel _ _ _ => true
+  | Unused _ _ _ | AdjLeaf _ _ | AdjAllow _ _ | AdjLevel _ _ _ | AdjLevelC _ _ _ _ | AdjLevelC0 _ _ _ => true
   | PreConv _ e | PostConv e _ | TieBr e _ | VSys e | PListC e | PListO e _ _ | Cond _ e _ => seat_any e
   | ByConsD _ ae | PreAppD _ ae => takes ae KSeats
   | ByParty ov _ => takes ov KSeats
@@ -1137,7 +1212,7 @@ Fixpoint seat_any (t : ev) : bool :=
 Fixpoint seat_ok (t : ev) (v : val) : bool :=
   match t with
   | Leaf _ _ | Fixed _ _ | ByCons _ _ | PreApp _ _ | RemApp _ | ByPartyS _
-  | Unused _ _ _ | AdjLeaf _ _ | AdjAllow _ _ | AdjLevel _ _ _ => true
+  | Unused _ _ _ | AdjLeaf _ _ | AdjAllow _ _ | AdjLevel _ _ _ | AdjLevelC _ _ _ _ | AdjLevelC0 _ _ _ => true
   | PreConv _ e | PostConv e _ | TieBr e _ | VSys e | PListC e | PListO e _ _ => seat_ok e v
   | Cond _ e _ => if takes e KSeats && negb (is_none v) then seat_ok e v else seat_ok e VNone
   | ByConsD _ ae | PreAppD _ ae => match v with VInt _ => takes ae KSeats | _ => true end
@@ -1172,6 +1247,10 @@ Fixpoint wt (t : ev) : bool :=
   | AdjAllow pe e | AdjLevel pe e _ =>
       takes pe KSeats && takes pe KMax && seat_any pe && wt pe && takes_spm e && seat_any e && wt e
   | ByConsP e _ pre => takes e KSeats && prev_implies_max e && seat_any e && wt e && wt pre
+  | AdjLevelC ce oe e _ =>
+      takes ce KSeats && takes ce KMax && seat_any ce && wt ce && takes oe KSeats && takes oe KMax && seat_any oe && wt oe &&
+      takes_spm e && seat_any e && wt e
+  | AdjLevelC0 ce e _ => takes ce KSeats && takes ce KMax && seat_any ce && wt ce && takes_spm e && seat_any e && wt e
   end.
 
 (* the typing of the first version of this model: apportioners and overall evaluators take a seat count *)
@@ -1180,7 +1259,8 @@ Fixpoint seated (t : ev) : bool :=
   | Leaf _ _ => true
   | PreConv _ e | PostConv e _ | VSys e | Fixed e _ | ByCons e _ | PreApp e _ | RemApp e | ByPartyS e | PListC e
   | AdjLeaf _ e => seated e
-  | Cond a b _ | TieBr a b | PListO a b _ | AdjAllow a b | AdjLevel a b _ | ByConsP a _ b => seated a && seated b
+  | Cond a b _ | TieBr a b | PListO a b _ | AdjAllow a b | AdjLevel a b _ | ByConsP a _ b | AdjLevelC0 a b _ => seated a && seated b
+  | AdjLevelC a b c _ => seated a && seated b && seated c
   | ByConsD e ae | PreAppD e ae => seated e && takes ae KSeats && seated ae
   | ByParty ov al => takes ov KSeats && seated ov && seated al
   | Multi rs _ | Unused rs _ _ => forallb seated rs
@@ -1201,4 +1281,6 @@ Fixpoint faithful (t : ev) : bool :=
   | PListO p le _ => faithful p && faithful le
   | AdjAllow pe e | AdjLevel pe e _ => faithful pe && faithful e
   | ByConsP e _ pre => insp_prev e && insp_seats pre && faithful e && faithful pre
+  | AdjLevelC ce oe e _ => faithful ce && faithful oe && faithful e
+  | AdjLevelC0 ce e _ => faithful ce && faithful e
   end.
